@@ -197,16 +197,12 @@ Proof. vm_compute. reflexivity. Qed.
 
 (* the Ready that carries the incoming snapshot (and the new commit index, nothing else) *)
 Definition rdy_snap (i : N) : ready := mkReady 0 0 0 true false i 0 0 0 i.
-(* the checkpoint is fetched from a replica that has it, or is found on the local disk *)
-Definition ev_fetch (i : N) : list event := [EvFsMark i; EvFsCopy i; EvFsComplete i].
 (* processReady / applySnapshot / persistRaftState / RestoreFromSnapshot / raftStorage.ApplySnapshot, in the order
-   one installation takes when nothing else interleaves; a = the applied index before *)
+   one installation takes when nothing else interleaves (the event lists of ProofsMain.install_completes);
+   a = the applied index before; fetch = ev_fetch i (the checkpoint is copied from a replica that has it) or
+   [EvFsLocalOk i] (it is found on the local disk) *)
 Definition ev_install (a i : N) (fetch : list event) : list event :=
-  [EvRdBegin (rdy_snap i); EvRdPublish 0 i i; EvApBefore a 0 i] ++ fetch ++
-  [EvAsPrepared i; EvRdSaveSnapBefore i; EvRdSnapFile i; EvRdSaveSnapAfter i; EvRdSaveBefore; EvRdSaveAfter;
-   EvRdApplySnapBefore i; EvAsRaftDone i; EvRsRemoved i; EvRsCopied i; EvRsMarkerGone; EvAsRestored i;
-   EvRdApplySnapAfter i; EvRdReleaseAfter i; EvRdAppendAfter; EvRdAdvance;
-   EvApAfter i; EvApRaftDone i; EvApTriggerBefore i i; EvApTriggerAfter i i].
+  ev_install_head a (rdy_snap i) ++ fetch ++ ev_install_tail i ++ ev_install_end i.
 
 (* a replica with a local snapshot at 5 and the entry 6, whose leader has compacted its log up to 9 *)
 Definition trace_follower_base : list event :=
@@ -295,15 +291,6 @@ Lemma snapshot_and_entries_refuted :
   /\ recover (wal_snapshot_and_entries true) [9] [(9, Some (range 0 9))] = Ok (range 0 11)
   /\ recover wal_snapshot_alone [9] [(9, Some (range 0 9))] = Ok [1; 2].
 Proof. vm_compute. repeat split; reflexivity. Qed.
-
-(* such a Ready is outside the model: the acceptor rejects its event with R_ENV ("not followed"), it does not pass *)
-Lemma snapshot_ready_carries_no_entries : forall s r, ready_ok s r = true -> 0 < r_snap r -> r_n r = 0 /\ r_cn r = 0.
-Proof.
-  intros s r H Hs. unfold ready_ok in H. apply N.ltb_lt in Hs. rewrite Hs in H.
-  repeat (apply andb_true_iff in H; destruct H as [H ?]).
-  repeat match goal with G : _ && _ = true |- _ => apply andb_true_iff in G; destruct G end.
-  repeat match goal with G : (_ =? _) = true |- _ => apply N.eqb_eq in G end. auto.
-Qed.
 
 (* the second schedule hypothesis is needed: the backup loop's purgeOldCheckpoint takes the latest snapshot index as
    the bound below which it removes; UpdateSnapshotState sets it to the incoming snapshot's index when the snap file
